@@ -476,6 +476,56 @@ func init() {
 			}
 			return p, cdc, cmp
 		}
+		// ---- isolation: a service in a Transcoder with another service is served exactly as alone
+		if svcMode == 1 {
+			view := func(t *vanguard.Transcoder, svcName, comp, codec string, form wire.Form) string {
+				got = nil
+				cr := &wire.ClientReq{Form: form, Path: "/verif.c." + svcName + "/Get", Codec: codec, Compression: comp, Msgs: [][]byte{Enc(codec, MkMsg(`{"name":"x"}`))}}
+				if comp != "" {
+					cr.Accept = []string{comp}
+				}
+				spec := world.SpecFromClient(cr)
+				req, _ := spec.Build(context.Background())
+				rec := drive.NewRecorder()
+				if pi := drive.Serve(t, rec, rec, req, spec.Body); pi != nil {
+					return "PANIC " + pi.Value
+				}
+				v := fmt.Sprintf("status=%d calls=%d", rec.Status, len(got))
+				for _, g := range got {
+					v += fmt.Sprintf(" [%s codec=%s compression=%s]", g.method, g.codec, g.comp)
+				}
+				return v
+			}
+			soloOf := func(sd protoreflect.ServiceDescriptor, o []vanguard.ServiceOption) *vanguard.Transcoder {
+				t, err := vanguard.NewTranscoder([]*vanguard.Service{vanguard.NewServiceWithSchema(sd, handler, o...)}, topts...)
+				if err != nil {
+					return nil // (e.g. the rules name methods of the other service)
+				}
+				return t
+			}
+			var oopts []vanguard.ServiceOption
+			oopts = append(oopts, op.opts...)
+			oopts = append(oopts, oc.opts...)
+			oopts = append(oopts, oz.opts...)
+			for _, sv := range []struct {
+				name string
+				solo *vanguard.Transcoder
+			}{{"Svc", soloOf(svc, sopts)}, {"Other", soloOf(other, oopts)}} {
+				if sv.solo == nil {
+					continue
+				}
+				for _, pr := range []struct {
+					comp, codec string
+					form        wire.Form
+				}{{"gzip", "proto", wire.GRPCWeb}, {"rev", "proto", wire.GRPCWeb}, {"", "json", wire.ConnectUnary}, {"gzip", "json", wire.ConnectUnary}, {"", "alt", wire.GRPC}} {
+					alone, together := view(sv.solo, sv.name, pr.comp, pr.codec, pr.form), view(tc, sv.name, pr.comp, pr.codec, pr.form)
+					if alone != together {
+						c.Attr("class", "options-not-honoured")
+						c.Fail("C17.options-not-honoured", "service %s is served differently next to another service than alone (%s %s request, compression %q)\n alone:    %s\n together: %s\n%s", sv.name, pr.form, pr.codec, pr.comp, alone, together, desc)
+					}
+				}
+			}
+		}
 		p1, c1, z1 := eff(dp, sp, dc, sc, dz, sz)
 		if !probe("Svc", "Get", p1, c1, z1) {
 			return
